@@ -42,7 +42,7 @@ pub fn expand(
         quote! {
             // TODO: Use `derive_more::core::error::Error` once `error_in_core` Rust feature is
             //       stabilized.
-            fn source(&self) -> Option<&(dyn derive_more::with_trait::Error + 'static)> {
+            fn source(&self) -> derive_more::core::option::Option<&(dyn derive_more::with_trait::Error + 'static)> {
                 use derive_more::__private::AsDynError;
                 #source
             }
@@ -170,7 +170,10 @@ fn render_enum(
         })
     };
 
-    let source = render(&mut source_match_arms, quote! { None });
+    let source = render(
+        &mut source_match_arms,
+        quote! { derive_more::core::option::Option::None },
+    );
     let provide = render(&mut provide_match_arms, quote! { () });
 
     Ok((bounds, source, provide))
@@ -301,7 +304,7 @@ fn render_some<T>(expr: T) -> TokenStream
 where
     T: quote::ToTokens,
 {
-    quote! { Some(#expr.as_dyn_error()) }
+    quote! { derive_more::core::option::Option::Some(#expr.as_dyn_error()) }
 }
 
 fn parse_fields<'input, 'state>(
